@@ -48,3 +48,13 @@ CHECKS: Dict[str, Any] = {
         "blockMesh grading law: each section is a geometric progression whose last/first ratio is the written expansion",
         "reference edge lengths: chord, three-point arc, polyline sum", "the blockMeshDict reader is correct"]),
 }
+
+
+ENGINES = ["propagation"]
+SELFTEST_SEEDS = {"propagation": 40}
+
+
+def engine_module(name: str):
+    import importlib
+
+    return importlib.import_module("sim.engines." + name + "_check")
